@@ -9,10 +9,14 @@ src = os.path.join(wt, "SEED")
 d = os.path.join(V, sid)
 os.makedirs(d, exist_ok=True)
 for f in ("patch.diff", "demo_test.rs"):
-    shutil.copy(os.path.join(src, f), os.path.join(d, f))
+    if os.path.exists(os.path.join(src, f)):
+        shutil.copy(os.path.join(src, f), os.path.join(d, f))
+if os.path.isdir(os.path.join(src, "harness")):
+    shutil.rmtree(os.path.join(d, "harness"), ignore_errors=True)
+    shutil.copytree(os.path.join(src, "harness"), os.path.join(d, "harness"), ignore=shutil.ignore_patterns("target"))
 m = json.load(open(os.path.join(src, "meta.json")))
 pid = m["property"]
-m.update({"id": sid, "trigger": m.get("needs_to_manifest"), "base_commit": "87d2907",
+m.update({"id": sid, "trigger": m.get("needs_to_manifest"), "base_commit": os.environ.get("SEED_BASE", "87d2907"),
           "author": "independent sub-agent (given only the property text and a scratch worktree)",
           "confirmed_here": conf, "static_verdict": verdict,
           "caught_by": [x.strip() for x in caught.split(",") if x.strip()],
